@@ -1,5 +1,5 @@
 //@ assume: same abstract types as C06/extending (handle, backend with ghost discard/sync counters, PMMR / HeaderExtension holding the real `&mut` borrows); the closure is arbitrary; handle.head_hash / Batch::get_block_header / Tip::from_header / Tip::default abstract
-//@ assume: T5: generic `PMMRHandle<BlockHeader>` => the abstract handle; lifetimes on Batch dropped. No statement of the function is rewritten. Obligations are assertions spliced at the exits relative to a ghost snapshot taken after the closure ran.
+//@ assume: T5: generic `PMMRHandle<BlockHeader>` => the abstract handle; lifetimes on Batch dropped. No statement of the function is rewritten. Obligations: (i) postconditions over a ghost log of backend operations (`ops`: 1 = discard, 2 = sync), which survive a restructuring of the exits, and (ii) the stronger assertions spliced at the two textual exits of `match res {..}` relative to a ghost snapshot taken after the closure ran -- optional splices (`before?`), dropped when those exits are no longer there.
 //@ assume: decided here: txhashset::header_extending -- the unit of work around every header (batch) application -- discards the header MMR backend and leaves its size untouched when the closure fails or forces a rollback (no-more-work headers), and syncs it, commits the child batch and takes the extension's size only on Ok without rollback
 //@ assumed_items: 19
 //@ fns: txhashset::header_extending
@@ -13,12 +13,12 @@ impl BitmapAccumulator {
     pub fn clone(&self) -> (r: BitmapAccumulator) ensures r == *self { unimplemented!() }
 }
 pub enum Error { Store, Other }
-pub struct PMMRBackend { pub discards: Ghost<int>, pub syncs: Ghost<int>, pub content: Ghost<int> }
+pub struct PMMRBackend { pub discards: Ghost<int>, pub syncs: Ghost<int>, pub content: Ghost<int>, pub ops: Ghost<Seq<int>> }
 impl PMMRBackend {
     #[verifier::external_body]
-    pub fn discard(&mut self) ensures final(self).discards@ == old(self).discards@ + 1, final(self).syncs@ == old(self).syncs@ { unimplemented!() }
+    pub fn discard(&mut self) ensures final(self).discards@ == old(self).discards@ + 1, final(self).syncs@ == old(self).syncs@, final(self).ops@ == old(self).ops@.push(1) { unimplemented!() }
     #[verifier::external_body]
-    pub fn sync(&mut self) -> (r: Result<(), Error>) ensures final(self).syncs@ == old(self).syncs@ + 1, final(self).discards@ == old(self).discards@ { unimplemented!() }
+    pub fn sync(&mut self) -> (r: Result<(), Error>) ensures final(self).syncs@ == old(self).syncs@ + 1, final(self).discards@ == old(self).discards@, final(self).ops@ == old(self).ops@.push(2), r matches Err(e) ==> e is Store { unimplemented!() }
 }
 pub struct PMMRHandle { pub backend: PMMRBackend, pub size: u64 }
 pub struct TxHashSet { pub output_pmmr_h: PMMRHandle, pub rproof_pmmr_h: PMMRHandle, pub kernel_pmmr_h: PMMRHandle, pub bitmap_accumulator: BitmapAccumulator }
@@ -31,7 +31,7 @@ impl Batch {
     #[verifier::external_body]
     pub fn child(&mut self) -> (r: Result<Batch, Error>) ensures final(self).commits@ == old(self).commits@ { unimplemented!() }
     #[verifier::external_body]
-    pub fn commit(self) -> (r: Result<(), Error>) { unimplemented!() }
+    pub fn commit(self) -> (r: Result<(), Error>) ensures r matches Err(e) ==> e is Store { unimplemented!() }
 }
 pub struct PMMR<'a> { pub backend: &'a mut PMMRBackend, pub size: u64 }
 impl<'a> PMMR<'a> {
@@ -80,16 +80,23 @@ impl<'a> HeaderExtension<'a> {
 //@   sigrewrite `handle: &'a mut PMMRHandle<BlockHeader>,` => `handle: &'a mut PMMRHandle,`
 //@   sigrewrite `batch: &'a mut Batch<'_>,` => `batch: &'a mut Batch,`
 //@   sigrewrite `F: FnOnce(&mut HeaderExtension<'_>, &mut Batch<'_>) -> Result<T, Error>,` => `F: FnOnce(&mut HeaderExtension<'_>, &mut Batch) -> Result<T, Error>,`
-//@   before `\tmatch res {`:
+//@   before? `\tmatch res {`:
 //@+    let ghost mid = *handle;
-//@   before `\t\t\tErr(e)\n\t\t}`:
+//@   before? `\t\t\tErr(e)\n\t\t}`:
 //@+    proof { assert(handle.backend.discards@ == mid.backend.discards@ + 1 && handle.backend.syncs@ == mid.backend.syncs@ && handle.size == mid.size); }
-//@   before `\t\t\tOk(r)\n\t\t}`:
+//@   before? `\t\t\tOk(r)\n\t\t}`:
 //@+    proof {
 //@+        assert(rollback ==> handle.backend.discards@ == mid.backend.discards@ + 1 && handle.backend.syncs@ == mid.backend.syncs@ && handle.size == mid.size);
 //@+        assert(!rollback ==> handle.backend.syncs@ == mid.backend.syncs@ + 1 && handle.backend.discards@ == mid.backend.discards@ && handle.size == size);
 //@+    }
 //@   requires:
 //@+    forall|e: &mut HeaderExtension, b: &mut Batch| inner.requires((e, b)),
+//@   ensures:
+//@+    // whatever the closure did (its effects on the backend are arbitrary): an error that is not a store failure of
+//@+    // commit / sync leaves the size alone and either nothing was touched at all or the LAST thing done to the backend is a discard
+//@+    (r matches Err(e) && e is Other) ==> final(handle).size == old(handle).size
+//@+        && (final(handle).backend == old(handle).backend || (final(handle).backend.ops@.len() > 0 && final(handle).backend.ops@.last() == 1)),
+//@+    // success ends in a discard with the size untouched (forced rollback) or in a sync
+//@+    r.is_ok() ==> final(handle).backend.ops@.len() > 0 && ((final(handle).backend.ops@.last() == 1 && final(handle).size == old(handle).size) || final(handle).backend.ops@.last() == 2),
 //@ end
 //@ canary header_extending: r.is_err()
